@@ -314,6 +314,10 @@ def goals_for(op, P, props):
         G.append(('C01', 'a', 'repay_all: rounding surplus is booked to outstanding insurance fees', 'dust-booked', [], Q['ins'] == P['ins'] + (RET * W - val)))
         G.append(('C01', 'a', 'repay_all: book equity rises by at most the tokens received + 1 ulp', 'equity<=in', [], equity_delta(P) <= RET * W + 1))
         G.append(('C16', 'c', 'repay_all: position slot is cleared', 'closed', [], z3.And(Q['ash'] == 0, Q['lsh'] == 0, Q['active'] == 0)))
+    if op == 'close_balance':
+        T = 28147497671          # ZERO_AMOUNT_THRESHOLD = 0.0001 native units in I80F48 bits: what a close may abandon (0.0001 of the smallest unit, nothing a user could repay)
+        G.append(('C03', 'g', 'close_balance: Ok => the debt written off with the slot is below 0.0001 native units (no residual debt is erased unpaid)', 'close-debt', [], LV(P['lsh'], P) < T))
+        G.append(('C03', 'g', 'close_balance: Ok => the deposit abandoned with the slot is below 0.0001 native units', 'close-asset', [], AV(P['ash'], P) < T))
     return [g for g in G if g[0] in props]
 
 
